@@ -687,6 +687,19 @@ def replay_table(ell, sep, a, b, cw, off):
     return None, {"tried": tried}
 
 
+def fallback(rep):
+    """kernels undecided: the two-pass replays are run over all their programs; only a program whose second pass differs is reported"""
+    # (replay_paren is left out: one of its programs - `if x then return (function() end) end` under ConditionalOnly - needs two passes on
+    #  the unchanged tree as well, see DESIGN.md "Further genuine idempotence defects"; it only ever confirms a flagged transparency obligation)
+    for kind, fn_ in (("collapse", replay_collapse), ("sort-grouping", replay_sort_grouping), ("relocation", replay_relocation), ("measure", replay_measure)):
+        try:
+            v, rec = fn_({})
+        except (KeyError, TypeError):
+            continue
+        if v:
+            rep.add(f"battery/{kind}", rep.violation({"obligation": "battery-after-undecided-kernel", "scenario": kind}, {"what": "kernel undecided; two-pass replay", "observed": v, **rec}), v)
+
+
 def replay(path):
     d = json.load(open(path))
     r = d["replay"]
